@@ -13,7 +13,7 @@ FILES = {
     "fastq": dict(fmt="fastq", records=[[1, 2], [2, 1], [1, 3]]),
     "fasta2": dict(fmt="fasta2", records=[[1, 2], [2, 1], [1, 3]]),
 }
-INTCOL = {"bed3": ["start", "stop"], "bed6": ["start", "stop"], "fastq": [], "fasta2": []}
+INTCOL = {"bed3": ["start", "stop"], "bed6": ["start", "stop"], "fastq": [], "fasta2": [], "sam": ["position", "mapq"]}
 
 # operation sequences; observations are taken where marked
 PROGRAMS = {
@@ -214,7 +214,10 @@ SEQ_FILES = {
     "bed6": dict(fmt="bed6", rows=[[1, 1, 2, 1, 1, 1], [2, 2, 1, 2, 2, 1], [1, 1, 1, 1, 1, 1]]),
     "fastq": dict(fmt="fastq", records=[[1, 2], [2, 1], [1, 3]]),
     "fasta2": dict(fmt="fasta2", records=[[1, 2], [2, 1], [1, 3]]),
+    # SAM without header lines (a header travels with lazily read tables only: see the sam_hdr skeletons and the known finding)
+    "sam": dict(fmt="sam", rows=[[1, 1, 1, 2, 1, 2, 1, 1, 1, 2, 2], [2, 1, 1, 1, 1, 1, 1, 1, 1, 1, 1, 3], [1, 2, 1, 1, 1, 1, 1, 1, 1, 1, 1, 1, 2]]),
 }
+SAM_HDR = dict(fmt="sam", rows=[[1, 1, 1, 2, 1, 2, 1, 1, 1, 2, 2], [2, 1, 1, 1, 1, 1, 1, 1, 1, 1, 1, 3]], header=["@HD\tVN:1.0"])
 
 
 def gen_programs(ops, max_len, sample, seed, full_len):
@@ -268,7 +271,7 @@ class _ConcreteText:
         if k[0] == "c" and self.int_cols is not None and "_" in k:
             parts = k[1:].split("_")
             if len(parts) == 3 and all(p.isdigit() for p in parts) and int(parts[1]) not in self.int_cols:
-                if self.kinds[int(parts[1])] == "strand":
+                if int(parts[1]) < len(self.kinds) and self.kinds[int(parts[1])] == "strand":
                     return (43, 45, 46)[int(parts[0]) % 3]
                 return 97 + (int(parts[0]) + int(parts[2])) % 3
             return self.x[k]
@@ -293,7 +296,7 @@ class OpSequences(LockStep):
         for name, f in SEQ_FILES.items():
             ops = OPS_SEQ if is_seq(f) else OPS_DELIM
             if tier == "quick":
-                full, mx, sample = (2, 4, 30) if name == "bed3" else (1, 3, 12)
+                full, mx, sample = (2, 4, 30) if name == "bed3" else ((1, 3, 12) if name != "sam" else (1, 3, 6))
             else:
                 full, mx, sample = (3, 6, 400) if name == "bed3" else (2, 5, 150)
             progs = gen_programs(ops, mx, sample, seed, full)
@@ -303,6 +306,8 @@ class OpSequences(LockStep):
                 progs += [p for p in DIRECTED if not any(o[0] == "replace" for o in p) and p not in progs]
             for prog in progs:
                 out.append(dict(f, file=name, ops=[list(op) for op in prog]))
+        for prog in ([], [("slice", 0)], [("concat",)]):
+            out.append(dict(SAM_HDR, file="sam", ops=[list(op) for op in prog]))
         return out
 
     def _run(self, skel, x, ctx, lazy):
